@@ -183,6 +183,20 @@ pub fn run(ctx: &Ctx) -> Report {
             }
         }
     }
+    // interaction triples: three leaf kinds under every operator skeleton, each on its directed file set
+    let tr = crate::combo::run_triples(
+        ctx.seed,
+        &crate::combo::supported_kinds(),
+        ctx.tier.pick(48, 2),
+        |t| {
+            let c = Case { tree: t.clone(), files: vec![], threads: None, via_text: stable_hash(t) % 5 == 0 };
+            let (v, n) = judge_with(&c, true);
+            executions.fetch_add(n, std::sync::atomic::Ordering::Relaxed);
+            v
+        },
+        |t| case_json(&Case { tree: t.clone(), files: vec![], threads: None, via_text: stable_hash(t) % 5 == 0 }),
+    );
+    total.merge(tr);
     let mut st2 = Stats::new();
     // every supported directive and escape of the format language on its own, on files of every
     // type with odd/even block counts (rounding of %k), zero and large values
